@@ -37,6 +37,10 @@ pub struct Profile {
     /// All features of the plan share one name, and all rules of a feature share one (scenario
     /// names stay unique): whatever keys by name instead of by `Source` identity merges them.
     pub dup_names_pm: u64,
+    /// Features as a custom parser / gherkin's typed builders produce them: every position 0:0
+    /// (in the writer worlds, C11 - C14, a scenario may then also hold the same step twice; the
+    /// runner-world reference model attributes outcomes by step text and is not given such plans).
+    pub positionless_pm: u64,
 }
 
 impl Profile {
@@ -60,6 +64,7 @@ impl Profile {
             no_failures: false,
             spicy: false,
             dup_names_pm: 0,
+            positionless_pm: 60,
         }
     }
 
@@ -113,9 +118,11 @@ impl Profile {
             }
             "C11" | "C12" | "C13" => {
                 p.dup_names_pm = 120;
+                p.positionless_pm = 120;
             }
             "C14" => {
                 p.dup_names_pm = 120;
+                p.positionless_pm = 120;
                 p.spicy = true;
                 p.hooks_pm = 700;
                 p.retries_pm = 600;
@@ -144,6 +151,8 @@ struct Ctx<'a> {
     undefined: bool,
     doc_strings: bool,
     spicy_names: bool,
+    /// position-less plans: a scenario may hold the same step (keyword, text, position 0:0) twice
+    repeat_steps: bool,
 }
 
 const SPICE: &[&str] = &["", "", "", " \"q\"", " <b>&amp;", " a\\b", " émoji ✓", " it's", " 100%"];
@@ -165,7 +174,10 @@ fn gen_steps(c: &mut Ctx<'_>, id: &str, n: usize) -> Vec<StepSpec> {
 
 fn gen_scenario(c: &mut Ctx<'_>, id: &str, max_steps: usize, serial: bool, retry_tag: Option<String>, outline: bool) -> ScenarioSpec {
     let n = c.r.usize(0, max_steps);
-    let steps = gen_steps(c, id, n);
+    let mut steps = gen_steps(c, id, n);
+    if c.repeat_steps && n >= 2 && c.r.chance(1, 3) {
+        steps[0] = steps[n - 1].clone();
+    }
     let mut tags = Vec::new();
     if serial {
         tags.push("serial".to_owned());
@@ -227,7 +239,9 @@ pub fn gen_plan(seed: u64, prof: &Profile) -> Plan {
     let mut features = Vec::new();
     let mut budget = max_sc;
     let dup_names = prof.dup_names_pm > 0 && r.chance(prof.dup_names_pm, 1000);
-    let mut c = Ctx { r: &mut r, p: prof, undefined, doc_strings: prof.spicy, spicy_names: prof.spicy };
+    // features as a custom parser / typed builders produce them: all positions 0:0
+    let positionless = r.chance(prof.positionless_pm, 1000);
+    let mut c = Ctx { r: &mut r, p: prof, undefined, doc_strings: prof.spicy, spicy_names: prof.spicy, repeat_steps: positionless && prof.dup_names_pm > 0 };
     let _ = c.p;
     for fi in 0..n_feat {
         let fid = ident("F", fi);
@@ -299,9 +313,17 @@ pub fn gen_plan(seed: u64, prof: &Profile) -> Plan {
             rules.push(RuleSpec { name: rname, tags: rtags, background: rbg, scenarios: scs });
         }
         let path = c.r.chance(3, 4).then(|| format!("/sim/features/{fid}.feature"));
+        // same-named features: paths that are component-wise suffixes of one another (a workspace
+        // member mirroring the root layout), in either order of arrival
+        let path = if dup_names && path.is_some() {
+            let depth = if fi % 2 == 0 { 2 * n_feat - fi } else { fi };
+            Some(format!("{}sim/features/dup.feature", "member/".repeat(depth)))
+        } else {
+            path
+        };
         let fspice = if prof.spicy { *c.r.pick(SPICE) } else { "" };
         let fname = if dup_names { "Fdup feature".to_owned() } else { format!("{fid} feature{fspice}") };
-        features.push(FeatureSpec { name: fname, path, tags: ftags, background, scenarios, rules });
+        features.push(FeatureSpec { name: fname, path, tags: ftags, background, scenarios, rules, positionless });
     }
     drop(c);
 
@@ -426,7 +448,10 @@ pub fn gen_plan(seed: u64, prof: &Profile) -> Plan {
         } else {
             Outcome::Pass
         };
-        let lg = if logs && !world {
+        let lg = if logs && world {
+            // a World constructor logs now and then (it runs inside the before hook's or a step's span)
+            if r.chance(1, 3) { (r.below(3) as u8, r.below(3) as u8) } else { (0, 0) }
+        } else if logs {
             if log_burst && r.chance(1, 12) {
                 // a burst: many log events queued ahead of one result event
                 (r.range(20, 120) as u8, r.below(3) as u8)
